@@ -155,6 +155,23 @@ def layer_checks(job):
             n += 1
             if rel(res[os_code][0] + res[ss_code][0], res[tot_code][0]) > TOL:
                 viol.append({"site": "layer:libxc-baseline-ss+os=total:%s" % tot_code, "detail": {}})
+    # ---- POL-mode evaluator (the spin-symmetrised squared-exponential kernel): exchanging the spin labels of the INPUT
+    # leaves the value unchanged and swaps the derivative blocks; broad and narrow length scales, inputs near the
+    # control points in their own orientation and with the labels exchanged (only one of the two pairings is O(1) then)
+    import spinkernel
+    from ciderpress.dft.xc_evaluator import SpinRBFEvaluator
+    from ciderpress.models.kernel_plans.kernel_tools import get_rbf_kernel
+    for name, ls, Xc, alpha, X in spinkernel.cases(rng, N1=4):
+        ev = SpinRBFEvaluator(get_rbf_kernel(slice(0, 4), ls, scale=1.0), Xc, alpha)
+        f, df = ev(X.copy())
+        fs, dfs = ev(X[::-1].copy())
+        rf, rdf = spinkernel.reference(X, Xc, ev._alpha, ls)
+        n += 2
+        sc = 1 + max(np.abs(rf).max(), np.abs(f).max())
+        if not (np.abs(f - fs).max() <= 1e-12 * sc and np.abs(df - dfs[::-1]).max() <= 1e-11 * (1 + np.abs(rdf).max())):
+            viol.append({"site": "layer:pol-evaluator-spin-swap:%s" % name.split(":")[0], "detail": {"case": name, "err_f": float(np.abs(f - fs).max()), "scale": float(sc)}})
+        if not (np.abs(f - rf).max() <= 1e-12 * sc and np.abs(fs - rf).max() <= 1e-12 * sc):
+            viol.append({"site": "layer:pol-evaluator-vs-kernel-sum:%s" % name.split(":")[0], "detail": {"case": name, "err": float(max(np.abs(f - rf).max(), np.abs(fs - rf).max()))}})
     return {"viol": viol, "n": n}
 
 
